@@ -161,6 +161,28 @@ def c06_c(ctx: Ctx):
         out.append(ctx.ok(R, None, None, f"all {len(norms)} accessors normalise keys identically: {next(iter(vals))}", construct="typed|siblings"))
     elif norms:
         out.append(ctx.viol(R, None, None, f"accessors of the typed index normalise keys differently: {norms}: a value stored through one is not found through another", construct="typed|siblings"))
+    # enumeration protocol: keys() hands out the de-normalised keys (float instead of the internal _float); plain iteration (`for v in index`, which the
+    # operator evaluation uses) must do the same, i.e. __iter__ is keys or spelled like it. dict.__iter__ would hand out the internal wrapper objects.
+    kf = ci.methods.get("keys")
+    denorm = kf is not None and any(isinstance(n, ast.IfExp) for n in body_nodes(kf))
+    if denorm:
+        it_attr = ci.attrs.get("__iter__")
+        it_fn = ci.methods.get("__iter__")
+        ki = "typed|__iter__"
+        if it_attr is not None and canon(it_attr) == "keys":
+            out.append(ctx.ok(R, None, None, "plain iteration over the typed index is keys(): it yields the stored values, not the internal wrapper keys", construct=ki))
+        elif it_fn is not None:
+            same = [canon(x) for x in it_fn.node.body if not (isinstance(x, ast.Expr) and isinstance(x.value, ast.Constant))] == \
+                   [canon(x) for x in kf.node.body if not (isinstance(x, ast.Expr) and isinstance(x.value, ast.Constant))]
+            delegates = any(isinstance(c, ast.Call) and isinstance(c.func, ast.Attribute) and c.func.attr == "keys" and canon(c.func.value) == "self" for c in body_nodes(it_fn))
+            if same or delegates:
+                out.append(ctx.ok(R, it_fn, it_fn.node, "__iter__ yields what keys() yields", construct=ki))
+            else:
+                out.append(ctx.inc(R, it_fn, it_fn.node, "__iter__ of the typed index is not keys()", construct=ki))
+        else:
+            out.append(ctx.viol(R, kf, kf.node, "_TypedSetDefaultDict overrides keys() to hand out floats for the internal _float keys but not __iter__: `for value in index` (operator "
+                                "evaluation) then sees the wrapper objects, which only compare equal to other wrappers, so $eq / $in never match a float value and $nin always does",
+                                construct=ki))
     # abstract evaluation: which types are wrapped (given a distinct hash)?
     norm = next(iter(vals)) if vals else ""
     wrapped = set()
@@ -691,8 +713,8 @@ def c06_k(ctx: Ctx):
 @rule("C06-l")
 def c06_l(ctx: Ctx):
     """Index builders treat every job independently: nothing read while indexing one job was computed for another."""
-    from .lints import per_item_loops
-    return per_item_loops(ctx, "C06-l", [
+    from .lints import per_item_loops, late_binding_in_loops
+    return late_binding_in_loops(ctx, "C06-l", ("signac._search_indexer", "signac.project")) + per_item_loops(ctx, "C06-l", [
         ("signac.project:Project._build_index", "a job without (readable) document is indexed with the previous job's document, so doc.* filters depend on which other jobs exist and on the listing order"),
         (IDX + ":_SearchIndexer.build_index", "a job lacking the key is filed under the previous job's value"),
         ("signac.project:Project._find_job_ids", "the result depends on which other jobs exist"),
